@@ -45,7 +45,11 @@ MANIFEST = {
             "non-class, a non-subclass, an unknown, ill-typed or missing required init arg, and init_args for an abstract type without class are "
             "errors (C14_rejects_*), that instantiation logs exactly one constructor call per spec, the last one of exactly the named class with "
             "exactly the init_args keys + dict_kwargs, objects passed from strictly earlier calls (C14_built_*), and that every short notation is "
-            "adapted exactly like the explicit dict (C14_short*). The model is tied to /repo by regenerating the spec keys, the dotted-option roots "
+            "adapted exactly like the explicit dict (C14_short*); for List[Class] / Dict[str, Class] arguments (List and Dict branches as written): "
+            "every dict key is adapted with the previous value of that very key (C14_dict_per_key, C14_dict_dotted_key), every list item with "
+            "the previous item of the same index iff the lengths agree (C14_list_per_item, C14_list_other_length, C14_list_prev_names_no_class, "
+            "C14_list_append), every element of an accepted container is checked (C14_checked_containers) and built once, children first, in "
+            "container order (C14_built_containers, C14_built_container_item). The model is tied to /repo by regenerating the spec keys, the dotted-option roots "
             "and the live scalar coercion matrix into Gen/ClassPathTables (C14_tables_pinned), and by generating class families as real packages "
             "(re-exports, duplicate names, abstract bases, factories, **kwargs, nested class parameters) and comparing parse results, error classes "
             "and constructor logs with the model; the property is evaluated on the real code against a reference written from the property statement.",
@@ -53,7 +57,8 @@ MANIFEST = {
                   "Scalar validation is abstract in the model (a literal carries its Python type; accepted pairs pinned by the regenerated table; "
                   "string-to-number conversions are C02). C14_checked assumes SigDetermined (one signature per class_path; proved for every "
                   "environment without factory functions). Open finding C14-stale-dict-kwargs (dict_kwargs survive a class change; reproduced by "
-                  "the model, witness theorem). Outside the model: List/Dict/Union of classes (oracle only), protocols, generics, "
+                  "the model, witness theorem). Open finding C14-dotted-sub-option-into-dict-entry (reproduced by the model, witness theorem). Outside the model: Union of "
+                  "classes and List/Dict parameters nested inside a class (oracle only; top-level List/Dict arguments are in the model), protocols, generics, "
                   "Callable[..., Base], argument defaults, None given for a scalar parameter, parameters named like Namespace methods.",
 }
 
@@ -71,6 +76,7 @@ PNAMES = ["alpha", "beta", "gamma", "delta", "omega", "kappa", "sigma"]
 CLASH_NAMES = ["items", "keys", "values", "get", "pop", "update"]
 F_CLASH = "C14-namespace-member-init-arg-unadapted"
 F_NONE = "C14-explicit-none-for-non-optional"
+F_DEEP = "C14-dotted-sub-option-into-dict-entry"
 
 
 # ---------------------------------------------------------------------------------------------
@@ -644,6 +650,8 @@ ERR_PATTERNS = [
     ("notSubclass", r"does not correspond to a subclass of"),
     ("unknownKey", r"is not expected|Unrecognized arguments|unrecognized arguments"),
     ("missingRequired", r"is required but not included"),
+    ("notList", r"Expected a <class 'list'>|Expected a typing.List|Expected a List"),
+    ("notDict", r"Expected a <class 'dict'>|Expected a typing.Dict|Expected a Dict"),
     ("illTyped", r"Expected a <class|Expected a \["),
     ("importFail", r"No module named|has no attribute|Expected a dot import path string"),
     ("ambiguous", r"Multiple subclasses with name"),
@@ -807,6 +815,10 @@ def model_val_to_canon(v):
     if "spec" in v:
         return {"cp": v["spec"]["cp"], "ia": {k: model_val_to_canon(x) for k, x in v["spec"]["ia"]},
                 "dk": {k: model_val_to_canon(x) for k, x in v["spec"]["dk"]}}
+    if "lst" in v:
+        return [model_val_to_canon(x) for x in v["lst"]]
+    if "dct" in v:
+        return {k: model_val_to_canon(x) for k, x in v["dct"]}
     return {"other": json.dumps(v)[:200]}
 
 
@@ -1433,6 +1445,9 @@ def container_multi_cases(rng, fam):
         else:
             srcs = [{"op": "set", "items": list(first), "via": rng.choice(["argv", "config"])},
                     {"op": "set", "items": list(second), "via": rng.choice(["argv", "config"])}]
+            if rng.random() < 0.4:
+                # --elems+=<value>: a new item with an explicit class
+                srcs.append({"op": "append", "raw": strip_dk(gen_spec_raw(rng, fam, T))})
             if rng.random() < 0.5:
                 try:
                     st = ref_container(fam, T, ckind, srcs, final=False)
@@ -1458,6 +1473,13 @@ def ref_container(fam, T, ckind, sources, final=True):
         elif s["op"] == "key":
             state = dict(state or {})
             state[s["key"]] = ref_apply(fam, T, state.get(s["key"]), s["raw"])
+        elif s["op"] == "append":
+            state = list(state or []) + [ref_apply(fam, T, None, s["raw"])]
+        elif s["op"] == "deep":
+            # the property: a dotted sub-option addresses an init arg of the entry, like for a plain class argument
+            state = dict(state or {})
+            k0 = s["key"][0]
+            state[k0] = ref_dotted(fam, T, state.get(k0), [x for x in s["key"][1:] if x != "init_args"], s["raw"])
         else:
             state = list(state)
             state[-1] = ref_dotted(fam, T, state[-1], [s["param"]], s["raw"])
@@ -1478,69 +1500,98 @@ def container_argv(fam, ckind, sources):
         elif s["op"] == "key":
             j = raw_to_json(fam, s["raw"])
             argv.append("--%s.%s=%s" % (opt, s["key"], j if isinstance(j, str) else json.dumps(j)))
+        elif s["op"] == "append":
+            j = raw_to_json(fam, s["raw"])
+            argv.append("--%s+=%s" % (opt, j if isinstance(j, str) else json.dumps(j)))
+        elif s["op"] == "deep":
+            argv.append("--%s.%s=%s" % (opt, ".".join(s["key"]), s["text"]))
         else:
             argv.append("--%s.%s=%s" % (opt, s["param"], text_of(s["raw"])))
     return argv
 
 
-def container_multi_problem(fam, ckind, sources):
-    """run the sequence on a real parser; returns (description | None, instantiated-something)"""
+def container_real(fam, ckind, sources):
+    """run the sequence on a real parser: {"kind": ok|reject|crash, "cat", "msg", "cfg": canonical, "ctors", "objs"}"""
     from typing import Dict, List
 
     from jsonargparse import ArgumentError, ArgumentParser
 
-    T = "Base"
     mod = module_for(fam)
-    base = getattr(mod, T)
+    base = getattr(mod, "Base")
     parser = ArgumentParser(exit_on_error=False)
     parser.add_argument("--config", action="config")
     parser.add_argument("--table", type=Dict[str, base])
     parser.add_argument("--elems", type=List[base])
     argv = container_argv(fam, ckind, sources)
-    try:
-        exp = ("ok", ref_container(fam, T, ckind, sources))
-    except Reject as ex:
-        exp = ("reject", str(ex))
     err = io.StringIO()
     try:
         with contextlib.redirect_stderr(err):
             cfg = parser.parse_args(argv)
     except ArgumentError as ex:
-        if exp[0] == "ok":
-            return "a valid multi-source %s-of-class configuration is rejected: %s" % (ckind, str(ex).replace("\n", " | ")[:300]), False
-        return None, False
+        return {"kind": "reject", "cat": err_category(str(ex)), "msg": str(ex).replace("\n", " | ")[:300]}
     except Exception as ex:  # noqa: BLE001
-        return "parsing a %s-of-class configuration raises %s: %s" % (ckind, type(ex).__name__, str(ex)[:200]), False
-    if exp[0] == "reject":
-        return "a %s-of-class configuration that must be rejected (%s) is accepted" % (ckind, exp[1]), False
+        return {"kind": "crash", "msg": "%s: %s" % (type(ex).__name__, str(ex)[:200])}
     got = cfg.get("table" if ckind == "dict" else "elems")
-    if ckind == "dict":
-        got_c = {k: canon_real(v) for k, v in (got or {}).items()}
-        want_c = {k: canon_state(fam, v) for k, v in exp[1].items()}
-        order = list(exp[1])
-    else:
-        got_c = [canon_real(v) for v in (got or [])]
-        want_c = [canon_state(fam, v) for v in exp[1]]
-        order = list(range(len(exp[1])))
-    if got_c != want_c:
-        bad = [k for k in order if (got_c.get(k) if ckind == "dict" else (got_c[k] if k < len(got_c) else None)) != (want_c[k])]
-        k = bad[0] if bad else None
-        g = (got_c.get(k) if ckind == "dict" else (got_c[k] if k is not None and k < len(got_c) else None)) if k is not None else got_c
-        return "%s-of-class: entry %r does not keep its own class / init_args across sources: got %s expected %s" % (
-            ckind, k, json.dumps(g, sort_keys=True)[:260], json.dumps(want_c[k] if k is not None else want_c, sort_keys=True)[:260]), False
+    out = {"kind": "ok"}
+    out["cfg"] = {k: canon_real(v) for k, v in (got or {}).items()} if ckind == "dict" else [canon_real(v) for v in (got or [])]
     mod.LOG.clear()
     try:
         init = parser.instantiate_classes(cfg)
     except Exception as ex:  # noqa: BLE001
         mod.LOG.clear()
-        return "instantiate_classes fails on an accepted %s-of-class configuration: %s: %s" % (ckind, type(ex).__name__, str(ex)[:200]), False
-    n_log = len(mod.LOG)
+        out["inst_error"] = "%s: %s" % (type(ex).__name__, str(ex)[:200])
+        return out
+    log = list(mod.LOG)
     mod.LOG.clear()
+    ids = {oid: i for i, (_, oid, _, _) in enumerate(log)}
+    out["ctors"] = [{"target": canonical(fam, name),
+                     "args": {k: ({"obj": ids[id(v)]} if id(v) in ids and not isinstance(v, (int, str, float, bool, type(None))) else {"lit": lit(v)}) for k, v in args.items()},
+                     "kwargs": {k: {"lit": lit(v)} for k, v in kwargs.items()}} for name, _, args, kwargs in log]
     objs = init.get("table" if ckind == "dict" else "elems")
+    out["objs"] = objs
+    out["obj_idx"] = ([[k, ids.get(id(o))] for k, o in objs.items()] if ckind == "dict" else [ids.get(id(o)) for o in objs]) if objs is not None else None
+    return out
+
+
+def container_multi_problem(fam, ckind, sources, real=None):
+    """the property on one multi-source sequence; returns (description | None, instantiated-something)"""
+    T = "Base"
+    try:
+        exp = ("ok", ref_container(fam, T, ckind, sources))
+    except Reject as ex:
+        exp = ("reject", str(ex))
+    real = real or container_real(fam, ckind, sources)
+    if real["kind"] == "crash":
+        return "parsing a %s-of-class configuration raises %s" % (ckind, real["msg"]), False
+    if real["kind"] == "reject":
+        if exp[0] == "ok":
+            return "a valid multi-source %s-of-class configuration is rejected: %s" % (ckind, real["msg"]), False
+        return None, False
+    if exp[0] == "reject":
+        return "a %s-of-class configuration that must be rejected (%s) is accepted" % (ckind, exp[1]), False
+    got_c = real["cfg"]
+    if ckind == "dict":
+        want_c = {k: canon_state(fam, v) for k, v in exp[1].items()}
+        order = list(exp[1])
+    else:
+        want_c = [canon_state(fam, v) for v in exp[1]]
+        order = list(range(len(exp[1])))
+    if got_c != want_c:
+        def at(c, k):
+            return c.get(k) if ckind == "dict" else (c[k] if k < len(c) else None)
+
+        bad = [k for k in order if at(got_c, k) != at(want_c, k)]
+        k = bad[0] if bad else None
+        return "%s-of-class: entry %r does not keep its own class / init_args across sources: got %s expected %s" % (
+            ckind, k, json.dumps(at(got_c, k) if k is not None else got_c, sort_keys=True)[:260],
+            json.dumps(at(want_c, k) if k is not None else want_c, sort_keys=True)[:260]), False
+    if "inst_error" in real:
+        return "instantiate_classes fails on an accepted %s-of-class configuration: %s" % (ckind, real["inst_error"]), False
+    objs = real["objs"]
     items = [(k, objs[k], exp[1][k]) for k in order]
     want_n = sum(len(expected_ctors(fam, st)) for _, _, st in items)
-    if n_log != want_n:
-        return "%s-of-class: %d constructor calls, expected %d (one per spec)" % (ckind, n_log, want_n), True
+    if len(real["ctors"]) != want_n:
+        return "%s-of-class: %d constructor calls, expected %d (one per spec)" % (ckind, len(real["ctors"]), want_n), True
     for k, obj, st in items:
         tname = ("defs2." if type(obj).__module__.endswith(".defs2") else "") + type(obj).__name__
         if canonical(fam, tname) != canonical(fam, target_class(fam, st["t"])):
@@ -1550,7 +1601,92 @@ def container_multi_problem(fam, ckind, sources):
                 v = st["ia"][p["name"]]
                 if not isinstance(v, dict) and lit(getattr(obj, p["name"])) != lit(v):
                     return "%s-of-class: entry %r has %s=%r, configured %r" % (ckind, k, p["name"], getattr(obj, p["name"]), v), True
-    return None, bool(n_log)
+    return None, bool(real["ctors"])
+
+
+def container_model_line(fam, ckind, sources):
+    srcs = []
+    for s in sources:
+        if s["op"] == "set":
+            raw = {"dct": [[k, wire_raw(fam, r)] for k, r in s["items"]]} if ckind == "dict" else {"lst": [wire_raw(fam, r) for r in s["items"]]}
+            srcs.append({"raw": raw, "append": False})
+        elif s["op"] == "key":
+            srcs.append({"raw": {"nested": [[s["key"]], wire_raw(fam, s["raw"])]}, "append": False})
+        elif s["op"] == "append":
+            srcs.append({"raw": wire_raw(fam, s["raw"]), "append": True})
+        elif s["op"] == "deep":
+            # --table.KEY.init_args.NAME=text: NestedArg(key="KEY.init_args.NAME", val=text)
+            srcs.append({"raw": {"nested": [s["key"], {"lit": ["str", s["text"]]}]}, "append": False})
+        else:
+            srcs.append({"raw": {"nested": [[s["param"]], wire_raw(fam, s["raw"])]}, "append": False})
+    return {"aty": ["dictOf" if ckind == "dict" else "listOf", canonical(fam, "Base")], "sources": srcs, "fuel": 24}
+
+
+def container_corr_diff(fam, ckind, real, m):
+    if "err" in m:
+        if real["kind"] != "reject":
+            return "model rejects (%s), real %s %s" % (m["err"], real["kind"], json.dumps(real.get("cfg"))[:200])
+        if real["cat"] != m["err"]:
+            return "error class: real %s (%s), model %s" % (real["cat"], real.get("msg", "")[:200], m["err"])
+        return None
+    if real["kind"] != "ok":
+        return "model accepts, real %s %s" % (real["kind"], real.get("msg", "")[:300])
+    mc = model_val_to_canon(m["ok"])
+    if real["cfg"] != mc:
+        return "parse result: real %s, model %s" % (json.dumps(real["cfg"], sort_keys=True)[:400], json.dumps(mc, sort_keys=True)[:400])
+    if "ctors" in real:
+        if real["ctors"] != model_ctors(m):
+            return "constructor log: real %s, model %s" % (json.dumps(real["ctors"])[:400], json.dumps(model_ctors(m))[:400])
+        arg = m.get("arg") or {}
+        midx = arg.get("dct") if ckind == "dict" else arg.get("lst")
+        if real.get("obj_idx") is not None and midx != real["obj_idx"]:
+            return "element objects: real %s, model %s" % (json.dumps(real["obj_idx"]), json.dumps(midx))
+    return None
+
+
+def run_container_multi_batch(ctx: Ctx, cases, origin):
+    """[(fam, ckind, sources)]: oracle + model correspondence"""
+    lines, index, last = [], [], None
+    for fam, ckind, sources in cases:
+        if modname(fam) != last:
+            lines.append({"setenv": wire_env(fam)})
+            last = modname(fam)
+        index.append(len(lines))
+        lines.append(container_model_line(fam, ckind, sources))
+    model = None
+    if lines:
+        try:
+            model = ctx.driver("ClassPath", lines)
+        except MachineryError as ex:
+            if ctx.lean_ok:
+                raise
+            ctx.tie_break("correspondence E10b not runnable (model does not build)", str(ex))
+    bad = 0
+    for i, (fam, ckind, sources) in enumerate(cases):
+        ctx.count()
+        ctx.hist("container_multi", ckind + "/%d sources" % len(sources))
+        real = container_real(fam, ckind, sources)
+        deep = any(s["op"] == "deep" for s in sources)
+        dev, built = container_multi_problem(fam, ckind, sources, real)
+        if dev is not None and deep and ctx.is_open(F_DEEP):
+            ctx.known(F_DEEP, "%s (argv %s)" % (dev[:200], json.dumps(container_argv(fam, ckind, sources))[:200]))
+        elif dev is not None:
+            ctx.violation("Dict/List-of-class argument with several sources: " + dev,
+                          {"kind": "container_multi", "origin": origin, "family": fam, "ckind": ckind, "sources": sources,
+                           "argv": container_argv(fam, ckind, sources), "module": family_src(fam)})
+        elif built:
+            ctx.nontrivial(json.dumps(["container_multi", family_src(fam), ckind, container_argv(fam, ckind, sources)]))
+        if model is not None:
+            d = container_corr_diff(fam, ckind, real, model[index[i]])
+            if d is not None:
+                bad += 1
+                if os.environ.get("VERIF_C14_DEBUG"):
+                    print("CORR-CONTAINER", d[:500], json.dumps(container_argv(fam, ckind, sources))[:400], file=sys.stderr)
+                if bad <= 3:
+                    ctx.tie_break("correspondence E10b (List/Dict-of-class model vs jsonargparse._typehints) disagrees",
+                                  json.dumps({"diff": d, "argv": container_argv(fam, ckind, sources), "ckind": ckind, "sources": sources,
+                                              "module": family_src(fam)}, ensure_ascii=True)[:1900])
+    return bad
 
 
 def run_container_multi(ctx: Ctx, fam, ckind, sources, origin):
@@ -1585,9 +1721,7 @@ def run(ctx: Ctx):
         corpus_all = corpus_mod.load(ctx.prop)
         corpus_cases = [(c["family"], c["declared"], c["sources"]) for c in corpus_all if "sources" in c]
         bad = run_cases(ctx, corpus_cases, "corpus")
-        for c in corpus_all:
-            if "container" in c:
-                run_container_multi(ctx, c["family"], c["container"]["ckind"], c["container"]["sources"], "corpus")
+        bad += run_container_multi_batch(ctx, [(c["family"], c["container"]["ckind"], c["container"]["sources"]) for c in corpus_all if "container" in c], "corpus")
         n_fam = ctx.budget(40, 450) * (2 if ctx.search_boost > 1 else 1)
         cases = []
         fams = []
@@ -1614,18 +1748,26 @@ def run(ctx: Ctx):
         for fam, T, src in cases[:3]:
             ctx.sample({"declared": T, "argv": build_argv(fam, src)})
         bad += run_cases(ctx, cases, "generated")
+        multi = []
         for fam in fams:
             for T in ("Base", "Dep", "SubA"):
                 metamorphic(ctx, fam, T, ctx.rng)
             for valid, ia in container_cases(ctx.rng, fam):
                 run_container(ctx, fam, valid, ia)
-            for f2, ckind, srcs in container_multi_cases(ctx.rng, fam):
-                run_container_multi(ctx, f2, ckind, srcs, "generated")
-        ctx.extra["cases"] = {"corpus": len(corpus_cases), "generated": len(cases), "families": n_fam}
+            multi.extend(container_multi_cases(ctx.rng, fam))
+        bad += run_container_multi_batch(ctx, multi, "generated")
+        ctx.extra["cases"] = {"corpus": len(corpus_cases), "generated": len(cases), "families": n_fam, "container_multi": len(multi)}
         ctx.extra["correspondence_disagreements"] = bad
 
         for f in ctx.open_findings():
             w = f["witness"]
+            if w.get("kind") == "container_multi":
+                dev, _ = container_multi_problem(w["family"], w["ckind"], w["sources"])
+                if dev is not None:
+                    ctx.known(f["id"], f["description"][:200])
+                else:
+                    ctx.stale_findings.append(f["id"])
+                continue
             real = real_run(w["family"], w["declared"], build_argv(w["family"], w["sources"]), default=default_of(w["sources"]))
             if oracle(w["family"], w["declared"], w["sources"], real) is not None:
                 ctx.known(f["id"], f["description"][:200])
